@@ -1,5 +1,6 @@
 import TextxVerif.Proofs.Link.Fqn
 import TextxVerif.Proofs.Link.FqnPath
+import TextxVerif.Proofs.Link.FqnText
 /-!
 # C10 — the FQN scope provider resolves only genuine qualified names
 
@@ -183,6 +184,63 @@ theorem C10_no_ref' (conf : Obj → Bool) (hconf : ∀ o, conf (strip o) = conf 
   rw [hs] at h1
   exact h1.symm.trans h2
 
+/-! ## the dotted reference text
+
+The provider gets the reference *text* and splits it with `fqn_name.split(".")`
+(`splitDots`, used by the driver).  The split is specified independently of its
+definition: it is the one and only list of dot-free parts whose `".".join` is the text. -/
+
+/-- **Specification of the split.** Never empty, no part contains a dot, joining the
+parts with dots gives the text back … -/
+theorem C10_split_spec (s : List Char) :
+    splitDotsL s ≠ [] ∧ (∀ w, w ∈ splitDotsL s → '.' ∉ w) ∧ joinDotsL (splitDotsL s) = s :=
+  ⟨splitDotsL_ne_nil s, splitDotsL_no_dot s, joinDotsL_splitDotsL s⟩
+
+/-- … and it is the only such list: the text `".".join(parts)` of dot-free `parts`
+splits into exactly `parts`. -/
+theorem C10_split_unique (s : List Char) (parts : List (List Char)) (hne : parts ≠ [])
+    (hnd : ∀ w, w ∈ parts → '.' ∉ w) (hj : joinDotsL parts = s) : splitDotsL s = parts := by
+  rw [← hj]; exact splitDotsL_joinDotsL parts hne hnd
+
+/-- **The property on the text.** For dot-free, non-empty `parts` the provider called with
+the text `".".join(parts)` from object `c` of the model resolves to `o` exactly when `o`
+ends a conforming containment chain matching `parts` from the nearest ancestor-or-self
+of `c` that has one. -/
+theorem C10_text_iff (conf : Obj → Bool) (root : Obj) (hd : DistinctIds root)
+    (hu : SiblingNamesUnique root) (c : Obj) (ancs : List Obj) (hp : IsPath c.id root ancs)
+    (parts : List String) (hne : parts ≠ []) (hnd : ∀ w, w ∈ parts → '.' ∉ w.toList) (o : Obj) :
+    fqnText conf root c.id (String.ofList (joinDotsL (parts.map String.toList))) = some o ↔
+      ∃ pre p post, ancs = pre ++ p :: post ∧ Chain p parts o ∧ conf o = true ∧
+        ∀ q, q ∈ pre → ¬ ∃ o', Chain q parts o' ∧ conf o' = true := by
+  unfold fqnText
+  rw [splitDots_join parts hne hnd]
+  exact C10_iff' conf root hd hu c ancs hp parts o
+
+/-- **Empty parts** (`a..b`, `.a`, `a.`, the empty text): when no object of the model is
+named `""` such a name resolves from nowhere — no uniqueness hypothesis needed. -/
+theorem C10_empty_part (conf : Obj → Bool) (root : Obj)
+    (hnm : ∀ k, Desc root k → k.name ≠ some "") (cur : Nat) (parts : List String)
+    (he : "" ∈ parts) : fqn conf root cur parts = none := by
+  cases h : fqn conf root cur parts with
+  | none => rfl
+  | some o =>
+    obtain ⟨ancs, p, hp, hpm, hch, _, _⟩ := C10_no_parent conf root cur parts o h
+    obtain ⟨k, hk, hkn⟩ := hch.named "" he
+    exact absurd hkn (hnm k (((pathTo_isPath cur root ancs hp).desc p hpm).trans hk))
+
+/-! ## the guard is the repair
+
+`walkHeap guard deref parentOf` is `find_obj`'s loop over *all* entries of `__dict__` —
+containment attributes, resolved reference attributes (through `deref`) and `parent`
+(through `parentOf`) — where `guard` is the repaired condition
+`a in tx_attrs and tx_attrs[a].cont`.  Without the guard it is the pinned walk of
+`C10_pinned_false`; with it, whatever the heap holds in reference attributes and `parent`
+links, it is the containment walk `walk` all theorems above speak about. -/
+theorem C10_heap_frame (deref parentOf : Nat → Option Obj) (p : Obj) (parts : List String) :
+    walkHeap true deref parentOf p parts = walk p parts ∧
+    walkHeap false deref parentOf p parts = walkPinned deref parentOf p parts :=
+  ⟨walkHeap_true deref parentOf p parts, walkHeap_false deref parentOf p parts⟩
+
 /-! ## the pinned behaviour violates the property (negation witness) -/
 
 /-- `package p { class a friend b;  class b; }` -/
@@ -241,5 +299,21 @@ example : IsPath exA.id exModel [exA, exP, exModel] :=
 example : ∀ o, (fun o : Obj => o.cls == 1 && o.name != some "x") (strip o) =
     (fun o : Obj => o.cls == 1 && o.name != some "x") o := by
   intro o; simp [strip_cls, strip_name]
+
+/-- the split on concrete texts (Python: `"a..b".split(".") == ["a", "", "b"]`, `"".split(".") == [""]`) -/
+example : splitDotsL "p.a.b".toList = ["p".toList, "a".toList, "b".toList] := by decide
+example : splitDotsL "a..b".toList = ["a".toList, [], "b".toList] := by decide
+example : splitDotsL "".toList = [[]] := by decide
+example : splitDotsL ".a".toList = [[], "a".toList] := by decide
+example : joinDotsL ["p".toList, "a".toList] = "p.a".toList := by decide
+/-- the hypotheses of `C10_text_iff` / `C10_empty_part` on the witness -/
+example : ∀ w, w ∈ ["p", "b"] → '.' ∉ w.toList := by decide
+example : ∀ k, Desc exModel k → k.name ≠ some "" := by
+  intro k hk
+  have hall : ∀ x, x ∈ preorder exModel → x.name ≠ some "" := by decide
+  exact hall k ((mem_preorder_iff_desc _ _).2 hk)
+/-- on the witness heap the guarded walk refuses what the unguarded one resolves -/
+example : (walkHeap true exDeref exParent exModel ["p", "a", "p", "b"]).map Obj.id = none ∧
+    (walkHeap false exDeref exParent exModel ["p", "a", "p", "b"]).map Obj.id = some 3 := by decide
 
 end Link
